@@ -531,6 +531,58 @@ def width_kept(known, part):
 
 
 
+def complex_mixed(known, part):
+    """complex data in different commensurable units: the rescaled operand keeps its imaginary part, the result keeps the complex type
+    and width of the operands, and equals the exact complex arithmetic on the rescaled numbers"""
+    from fractions import Fraction as Fr
+
+    from unyt import unyt_array, unyt_quantity
+
+    SC = {"km": Fr(1000), "m": Fr(1), "cm": Fr(1, 100), "hr": Fr(3600), "s": Fr(1), "min": Fr(60), "kg": Fr(1000), "g": Fr(1), "delta_degC": Fr(9, 5), "delta_degF": Fr(1), "K": Fr(9, 5), "R": Fr(1)}
+    pairs = [("km", "m"), ("m", "km"), ("cm", "km"), ("hr", "s"), ("min", "hr"), ("g", "kg"), ("delta_degC", "delta_degF"), ("R", "K"), ("K", "delta_degF")]
+    vals_a = [1 + 2j, -3 + 0.5j, 0.25 - 4j]
+    vals_b = [2 - 1j, 0.5 + 8j, -16 + 0.125j]
+    forms = [("a+b", lambda a, b: a + b, 1), ("a-b", lambda a, b: a - b, -1), ("np.add", lambda a, b: np.add(a, b), 1), ("np.subtract", lambda a, b: np.subtract(a, b), -1),
+             ("a+=b", lambda a, b: a.__iadd__(b), 1), ("np.subtract(out=a)", lambda a, b: np.subtract(a, b, out=a), -1), ("a+b[0] (scalar)", lambda a, b: a + b[0], None), ("a==b", lambda a, b: a == b, "eq"),
+             ("a!=b", lambda a, b: a != b, "ne"), ("np.isclose", lambda a, b: np.isclose(a, b), "eq")]
+    for ua, ub in pairs:
+        for dt in ("complex128", "complex64"):
+            for fname, fn, sign in forms:
+                a = unyt_array(np.array(vals_a, dtype=dt), ua)
+                b = unyt_array(np.array(vals_b, dtype=dt), ub)
+                ratio = complex(SC[ub] / SC[ua])
+                if sign in ("eq", "ne"):
+                    b = unyt_array(np.array([v / ratio for v in vals_a], dtype=dt) if True else None, ub)  # the same quantities written in the other unit
+                    b[1] = b[1] + (0 + 1j) * abs(b[1])  # one of them differs in the imaginary part only
+                part.ev()
+                try:
+                    with warnings.catch_warnings(record=True) as w:
+                        warnings.simplefilter("always")
+                        r = fn(a, b)
+                except Exception as e:
+                    part.count(f"complex grid: refused ({type(e).__name__})")
+                    continue
+                part.nt(("complex", ua, ub, dt, fname))
+                lost = [str(x.message)[:60] for x in w if "imaginary" in str(x.message)]
+                if sign in ("eq", "ne"):
+                    want = [True, False, True] if sign == "eq" else [False, True, False]
+                    if fname == "np.isclose" and dt == "complex64":
+                        continue
+                    if list(np.asarray(r)) != want or lost:
+                        core.classify(known, part, f"C17:complex-comparison:{fname}", {"a": ua, "b": ub, "dtype": dt, "got": [bool(x) for x in np.asarray(r)], "want": want, "warnings": lost})
+                    continue
+                if sign is None:
+                    want = [x + vals_b[0] * ratio for x in vals_a]
+                else:
+                    want = [x + sign * y * ratio for x, y in zip(vals_a, vals_b)]
+                got = np.asarray(r)
+                eps = 8 * float(np.finfo(np.dtype(dt)).eps)
+                ok_v = got.shape == (3,) and all(abs(g - w_) <= eps * (abs(w_) + abs(ratio) * 16) for g, w_ in zip(got.tolist(), want))
+                if got.dtype != np.dtype(dt) or not ok_v or lost or r.units != a.units:
+                    core.classify(known, part, f"C17:complex-mixed-units:{fname}:{dt}", {"a": ua, "b": ub, "got": repr(r)[:160], "dtype": str(got.dtype), "want": [str(x) for x in want], "warnings": lost})
+
+
+
 def list_operands(known, part):
     """Python lists / tuples of integer-typed quantities written in different commensurable units, as constructor argument and as
     operand of mixed-unit binary ufuncs: the items are converted to the first item's unit as floating-point numbers, never written
@@ -603,6 +655,7 @@ def part_grid(payload):
         equiv_ints(known, part)
         width_kept(known, part)
         list_operands(known, part)
+        complex_mixed(known, part)
     for dt in payload["dtypes"]:
         if dt in INT_DT:
             info = np.iinfo(dt)
